@@ -38,6 +38,18 @@ pub(crate) fn fresh_world() {
     snapshot();
 }
 
+/// Page size of the model: the real one, or a 16-byte page so that every way an entry patch can
+/// straddle page boundaries occurs inside the arena (the code is parametric in sysconf's answer).
+pub(crate) fn any_page_size() {
+    let small: bool = kani::any();
+    let ps = if small { 16 } else { 4096 };
+    unsafe {
+        os::PAGE_SIZE = ps;
+    }
+    // CBMC/Kani addresses are (object id << 48) + offset, so the arena base is page aligned
+    kani::assume(os::mem_base() % ps == 0);
+}
+
 /// ∀-style check helper: arena byte `i` currently holds the content it had at the most recent
 /// flush that covered it (i.e. a covering flush happened after the last write to it).
 pub(crate) fn flushed_with_final_content(i: usize) -> bool {
@@ -100,6 +112,7 @@ fn page_cover_body(off: usize, len: usize, ps: usize) {
         patch_function(os::mem_ptr(off), &patch[..len]);
         assert!(os::N_MPROTECT >= 1 && os::EV_KIND[0] == 1, "OBL:C01.page.protect-first: the pages are made writable before anything is written");
         assert!(os::writable(base + off, len), "OBL:C01.page.cover: every byte of the patch lies in pages made R|W|X by a successful mprotect");
+        assert!(!os::FLUSH_UNPROT, "OBL:C01.page.before-write: every range that was written (and flushed) was writable at that moment");
         let k = os::N_MPROTECT - 1;
         assert!(os::PROT_START[k] % ps == 0 && os::PROT_LEN[k] % ps == 0 && os::PROT_LEN[k] > 0, "OBL:C01.page.aligned: mprotect is called on whole pages");
         let j: usize = kani::any();
@@ -132,6 +145,47 @@ fn c01_page_cover() {
     page_cover_body(off, len, ps);
     kani::cover!(ps == 16 && off == 13 && len == 5, "COVER:straddles");
     kani::cover!(ps == 16 && off % 16 == 15 && len == 16, "COVER:straddles-two");
+    kani::cover!(true, "COVER:end");
+}
+
+/// C01.page.cover after a prior call — the same contract must hold whatever `patch_function` did
+/// before (it has no licence to remember): an arbitrary earlier patch, then the patch under
+/// examination; every byte of the second patch is writable when written.
+#[kani::proof]
+#[kani::unwind(26)]
+#[kani::stub(crate::injector_core::linuxapi::__clear_cache, os::flush)]
+fn c01_page_cover_seq() {
+    let off0: usize = kani::any();
+    let len0: usize = kani::any();
+    let off: usize = kani::any();
+    let len: usize = kani::any();
+    let sel: u8 = kani::any();
+    let ps: usize = match sel {
+        0 => 16,
+        1 => 32,
+        _ => 4096,
+    };
+    kani::assume(len0 >= 1 && len0 <= 16 && off0 <= os::ARENA - 16);
+    kani::assume(len >= 1 && len <= 16 && off <= os::ARENA - 16);
+    unsafe {
+        os::PAGE_SIZE = ps;
+    }
+    let base = os::mem_base();
+    kani::assume(base % ps == 0);
+    let patch0: [u8; 16] = kani::any();
+    let patch: [u8; 16] = kani::any();
+    unsafe {
+        patch_function(os::mem_ptr(off0), &patch0[..len0]);
+        patch_function(os::mem_ptr(off), &patch[..len]);
+        let j: usize = kani::any();
+        kani::assume(j < len);
+        crate::obligations! {
+            (os::writable(base + off, len)) => "OBL:C01.page.cover.seq: after any earlier patch, every byte of this patch still lies in pages made R|W|X",
+            (!os::FLUSH_UNPROT) => "OBL:C01.page.before-write.seq: after any earlier patch, every range written was writable at that moment",
+            (os::MEM[off + j] == patch[j]) => "OBL:C01.page.written.seq: the patch bytes are in place",
+        }
+    }
+    kani::cover!(ps == 16 && off0 == 1 && len0 == 5 && off == 13 && len == 5, "COVER:same-first-page-then-straddle");
     kani::cover!(true, "COVER:end");
 }
 
